@@ -771,12 +771,15 @@ fn tasks_run(seed: u64, run: u64, p: &mut Prng, menu: &[Box<dyn TyObj>]) -> RunS
     } else {
         small[p.below(small.len() as u64) as usize]
     };
-    let hunt_kind = p.weighted(&[6, 2, 2]);
+    // three hunts in ten are about the byte paths instead: every op a `gen` or a fill, lengths around chunk sizes,
+    // RNG faults on (a staging buffer, a carry-over of unused bytes or a chunk counter shared between callers)
+    let byte_hunt = hunt && p.chance(3, 10);
+    let hunt_kind = if byte_hunt { 3 } else { p.weighted(&[6, 2, 2]) };
     // a third of the hunts are long chains: one or two tasks with many constructions each (a multi-slot table needs
     // several entries, evictions and a particular order of them before it can go wrong)
     let long_chain = hunt && p.chance(1, 3);
     let n_tasks = if long_chain { 1 + p.below(2) as usize } else if p.chance(1, 3) { 3 } else { 2 };
-    let faults_on = !hunt && p.chance(1, 3);
+    let faults_on = if byte_hunt { p.chance(2, 3) } else { !hunt && p.chance(1, 3) };
     let sw = Swarm {
         fault_err: faults_on && p.chance(1, 2),
         fault_partial: faults_on && p.chance(1, 2),
@@ -846,13 +849,24 @@ fn tasks_run(seed: u64, run: u64, p: &mut Prng, menu: &[Box<dyn TyObj>]) -> RunS
         let mut ops = Vec::new();
         for _ in 0..if long_chain { 6 + p.below(6) } else { 1 + p.below(if hunt { 4 } else { 3 }) } {
             let dynamic = p.below(4) < sw.dyn_rate;
-            let kind_sel = if hunt { hunt_kind } else { p.weighted(&[8, 4, 4, 2, 2]) };
+            let kind_sel = if byte_hunt { 3 + p.below(3).min(1) as usize } else if hunt { hunt_kind } else { p.weighted(&[8, 4, 4, 2, 2]) };
             if kind_sel == 3 {
                 ops.push(Op { kind: OpKind::Gen, dynamic, calls: (0..1 + p.below(3)).map(|_| fill_call_plan(p, &sw, w, db)).collect(), shape: 0 });
                 continue;
             }
             if kind_sel == 4 {
-                let len = p.below(6) as usize;
+                let len = if byte_hunt {
+                    match p.below(4) {
+                        0 => p.below(10) as usize,
+                        1 => 10 + p.below(40) as usize,
+                        _ => {
+                            let b = [63usize, 64, 65, 255, 256, 257, 511, 512, 513, 1023, 1024, 1025, 4095, 4096, 4097][p.below(15) as usize];
+                            ((b + w - 1) / w + p.below(3) as usize).saturating_sub(1)
+                        }
+                    }
+                } else {
+                    p.below(6) as usize
+                };
                 let via = [FillVia::TryFillSlice, FillVia::FillTrait, FillVia::RngTryFill][p.below(3) as usize];
                 ops.push(Op { kind: OpKind::Fill { len, init: 0x5A, front: p.below(3) as usize, via }, dynamic, calls: (0..1 + p.below(2)).map(|_| fill_call_plan(p, &sw, w * len.max(1), db)).collect(), shape: 0 });
                 continue;
